@@ -78,6 +78,40 @@ def _cond(path, text, value=True):
     return any(s[0] == "cond" and U(s[1]) == text and s[2] == value for s in path)
 
 
+def check_int_float_refusal(ctx, rule, m, kname):
+    if True:
+        fi = m.func("_construction", kname)
+        ctx.saw(fi)
+        found = False
+        before_alloc = True
+        for path in function_paths(fi.node, loops=0 if kname.startswith("calculate_1d") else 1):
+            alloc_seen = False
+            for step in path:
+                if step[0] == "stmt" and any(call_is(c, "zeros", "histogramdd") for c in calls_in(step[1])):
+                    alloc_seen = True
+                if step[0] == "cond" and step[2] and end_kind(path) == "raise":
+                    e = step[1]
+                    if isinstance(e, ast.BoolOp) and isinstance(e.op, ast.And) and len(e.values) == 2:
+                        a, b = e.values
+                        def kind_in_iu(x):
+                            return (isinstance(x, ast.Compare) and len(x.ops) == 1 and isinstance(x.ops[0], ast.In)
+                                    and U(x.left).endswith(".kind") and const_value(x.comparators[0]) in ("iu", "ui")
+                                    and "weight" not in U(x.left))
+                        def w_kind_f(x):
+                            return (isinstance(x, ast.Compare) and len(x.ops) == 1 and isinstance(x.ops[0], ast.Eq)
+                                    and U(x.left).endswith(".dtype.kind") and "weight" in U(x.left)
+                                    and const_value(x.comparators[0]) == "f")
+                        if (kind_in_iu(a) and w_kind_f(b)) or (kind_in_iu(b) and w_kind_f(a)):
+                            if step is path[-2] or True:
+                                found = True
+                                if alloc_seen:
+                                    before_alloc = False
+        ctx.check(found and before_alloc, rule, f"{kname}:int-dtype-float-weights",
+                  "raises when <dtype>.kind in 'iu' and weights.dtype.kind == 'f', before any allocation",
+                  "the refusal of an integer dtype with float weights is missing, malformed (e.g. `kind == 'iu'`) or comes "
+                  "after the arrays were allocated", fi.where)
+
+
 def run(ctx):
     m = ctx.model
     H1, HN, HB, H2 = m.cls("Histogram1D"), m.cls("HistogramND"), m.cls("HistogramBase"), m.cls("Histogram2D")
@@ -261,33 +295,4 @@ def run(ctx):
     # ---- C13.d integer dtype + float weights refused ---------------------------------------------------------------
     ctx.rule("C13.d", "both kernels raise when an integer dtype is requested with float weights, before allocating", 2)
     for kname in ("calculate_1d_frequencies", "calculate_nd_frequencies"):
-        fi = m.func("_construction", kname)
-        ctx.saw(fi)
-        found = False
-        before_alloc = True
-        for path in function_paths(fi.node, loops=0 if kname.startswith("calculate_1d") else 1):
-            alloc_seen = False
-            for step in path:
-                if step[0] == "stmt" and any(call_is(c, "zeros", "histogramdd") for c in calls_in(step[1])):
-                    alloc_seen = True
-                if step[0] == "cond" and step[2] and end_kind(path) == "raise":
-                    e = step[1]
-                    if isinstance(e, ast.BoolOp) and isinstance(e.op, ast.And) and len(e.values) == 2:
-                        a, b = e.values
-                        def kind_in_iu(x):
-                            return (isinstance(x, ast.Compare) and len(x.ops) == 1 and isinstance(x.ops[0], ast.In)
-                                    and U(x.left).endswith(".kind") and const_value(x.comparators[0]) in ("iu", "ui")
-                                    and "weight" not in U(x.left))
-                        def w_kind_f(x):
-                            return (isinstance(x, ast.Compare) and len(x.ops) == 1 and isinstance(x.ops[0], ast.Eq)
-                                    and U(x.left).endswith(".dtype.kind") and "weight" in U(x.left)
-                                    and const_value(x.comparators[0]) == "f")
-                        if (kind_in_iu(a) and w_kind_f(b)) or (kind_in_iu(b) and w_kind_f(a)):
-                            if step is path[-2] or True:
-                                found = True
-                                if alloc_seen:
-                                    before_alloc = False
-        ctx.check(found and before_alloc, "C13.d", f"{kname}:int-dtype-float-weights",
-                  "raises when <dtype>.kind in 'iu' and weights.dtype.kind == 'f', before any allocation",
-                  "the refusal of an integer dtype with float weights is missing, malformed (e.g. `kind == 'iu'`) or comes "
-                  "after the arrays were allocated", fi.where)
+        check_int_float_refusal(ctx, "C13.d", m, kname)
